@@ -5,6 +5,7 @@ import json, os, subprocess, tempfile, shutil
 
 R = 'src/solver/'
 D = R + 'implementations/default/'
+K = 'src/solver/core/kktsolvers/direct/quasidef/'
 Q = R + 'core/kktsolvers/direct/quasidef/'
 BENIGN = [
  ('is_solved_reordered', D + 'info.rs', '        ((self.gap_abs < tol_gap_abs) || (self.gap_rel < tol_gap_rel))\n            && (self.res_primal < tol_feas)\n            && (self.res_dual < tol_feas)',
@@ -119,6 +120,58 @@ BENIGN = [
  ('info_reset_reordered', D + 'info.rs', '        self.status = SolverStatus::Unsolved;\n        self.iterations = 0;\n        self.solve_time = 0f64;\n\n        timers.reset_timer("solve");', '        timers.reset_timer("solve");\n        self.solve_time = 0f64;\n        self.iterations = 0;\n        self.status = SolverStatus::Unsolved;'),
  ('block_indices_le_swapped', 'src/solver/chordal/decomp/augment_compact.rs', '    for &i in snode {\n        for &j in separator {\n            block_indices.push((min(i, j), max(i, j), false));\n        }\n    }', '    for &j in separator {\n        for &i in snode {\n            block_indices.push((min(j, i), max(j, i), false));\n        }\n    }'),
  ('validator_size_in_message', D + 'json.rs', '    P.check_format().map_err(|e| invalid(format!("P: {}", e)))?;', '    P.check_format()\n        .map_err(|e| invalid(format!("P ({} x {}): {}", P.nrows(), P.ncols(), e)))?;'),
+ ('info_gap_abs_swapped', D + 'info.rs', '        self.gap_abs = T::abs(self.cost_primal - self.cost_dual);', '        self.gap_abs = T::abs(self.cost_dual - self.cost_primal);'),
+ ('info_dual_inf_max_swapped', D + 'info.rs', '        self.res_dual_inf = T::max(\n            residuals.Px.norm_scaled(dinv) / T::max(T::one(), normx),\n            residuals.rz_inf.norm_scaled(einv) / T::max(T::one(), normx + norms),\n        );', '        self.res_dual_inf = T::max(\n            residuals.rz_inf.norm_scaled(einv) / T::max(T::one(), norms + normx),\n            residuals.Px.norm_scaled(dinv) / T::max(normx, T::one()),\n        );'),
+ ('info_tau_unscale_plain_mul', D + 'info.rs', '        normx *= τinv;\n        normz *= τinv;\n        norms *= τinv;', '        normx = normx * τinv;\n        normz = τinv * normz;\n        norms = norms * τinv;'),
+ ('info_res_primal_regrouped', D + 'info.rs', '            residuals.rz.norm_scaled(einv) * τinv / T::max(T::one(), normb + normx + norms);', '            τinv * residuals.rz.norm_scaled(einv) / T::max(T::one(), normx + norms + normb);'),
+ ('info_gap_rel_min_swapped', D + 'info.rs', '                T::min(T::abs(self.cost_primal), T::abs(self.cost_dual)),', '                T::min(T::abs(self.cost_dual), T::abs(self.cost_primal)),'),
+ ('residuals_rx_two_steps_swapped', D + 'residuals.rs', '        self.rx.waxpby(-T::one(), &self.Px, -variables.τ, &data.q);\n        self.rx.axpby(T::one(), &self.rx_inf, T::one());', '        self.rx.waxpby(-variables.τ, &data.q, -T::one(), &self.Px);\n        self.rx.axpby(T::one(), &self.rx_inf, T::one());'),
+ ('residuals_rtau_reordered', D + 'residuals.rs', '        self.rτ = qx + bz + variables.κ + xPx / variables.τ;', '        self.rτ = xPx / variables.τ + variables.κ + bz + qx;'),
+ ('unscale_z_factor_local', D + 'variables.rs', '        self.z.hadamard(e).scale(scaleinv * cinv);', '        let zfac = cinv * scaleinv;\n        self.z.hadamard(e).scale(zfac);'),
+ ('unscale_match_form', D + 'variables.rs', '            if is_infeasible {\n                T::recip(self.κ)\n            } else {\n                T::recip(self.τ)\n            }', '            match is_infeasible {\n                false => T::recip(self.τ),\n                true => T::recip(self.κ),\n            }'),
+ ('kkt_tau_num_reordered', D + 'kktsystem.rs', '        let tau_num = rhs.τ - rhs.κ / variables.τ\n            + data.q.dot(x1)\n            + data.b.dot(z1)\n            + two * data.P.quad_form(ξ, x1);', '        let tau_num = data.b.dot(z1) + data.q.dot(x1) + rhs.τ - rhs.κ / variables.τ\n            + data.P.quad_form(ξ, x1) * two;'),
+ ('kkt_lhs_waxpby_swapped', D + 'kktsystem.rs', '        lhs.x.waxpby(T::one(), x1, lhs.τ, x2);\n        lhs.z.waxpby(T::one(), z1, lhs.τ, z2);', '        lhs.z.waxpby(lhs.τ, z2, T::one(), z1);\n        lhs.x.waxpby(lhs.τ, x2, T::one(), x1);'),
+ ('kkt_dkappa_regrouped', D + 'kktsystem.rs', '        lhs.κ = -(rhs.κ + variables.κ * lhs.τ) / variables.τ;', '        lhs.κ = -(lhs.τ * variables.κ + rhs.κ) / variables.τ;'),
+ ('kkt_initial_qp_negate', D + 'kktsystem.rs', '            self.workx.scalarop_from(|q| -q, &data.q);\n            self.workz.copy_from(&data.b);', '            self.workz.copy_from(&data.b);\n            self.workx.axpby(-T::one(), &data.q, T::zero());'),
+ ('equil_clip_loops_swapped', D + 'problemdata.rs', '            for (dwork, &d) in izip!(dwork.iter_mut(), d.iter()) {\n                *dwork = T::clip(dwork, scale_min / d, scale_max / d);\n            }\n            for (ework, &e) in izip!(ework.iter_mut(), e.iter()) {\n                *ework = T::clip(ework, scale_min / e, scale_max / e);\n            }', '            for (ework, &e) in izip!(ework.iter_mut(), e.iter()) {\n                *ework = T::clip(ework, scale_min / e, scale_max / e);\n            }\n            for (dwork, &d) in izip!(dwork.iter_mut(), d.iter()) {\n                *dwork = T::clip(dwork, scale_min / d, scale_max / d);\n            }'),
+ ('equil_record_before_scale', D + 'problemdata.rs', '            scale_data(P, A, q, b, Some(dwork), ework);\n            d.hadamard(dwork);\n            e.hadamard(ework);', '            d.hadamard(dwork);\n            e.hadamard(ework);\n            scale_data(P, A, q, b, Some(dwork), ework);'),
+ ('equil_cost_scale_min_form', D + 'problemdata.rs', '                let scale_cost = T::max(inf_norm_q, mean_col_norm_P);\n                let ctmp = T::recip(scale_cost);', '                let scale_cost = T::max(mean_col_norm_P, inf_norm_q);\n                let ctmp = T::one() / scale_cost;'),
+ ('equil_cost_q_before_P', D + 'problemdata.rs', '                P.scale(ctmp);\n                q.scale(ctmp);\n                equil.c *= ctmp;', '                equil.c *= ctmp;\n                q.scale(ctmp);\n                P.scale(ctmp);'),
+ ('termination_limits_time_first', D + 'info.rs', '            if settings.max_iter == self.iterations {\n                self.status = SolverStatus::MaxIterations;\n            } else if self.solve_time > settings.time_limit {\n                self.status = SolverStatus::MaxTime;\n            }', '            if self.iterations != settings.max_iter {\n                if self.solve_time > settings.time_limit {\n                    self.status = SolverStatus::MaxTime;\n                }\n            } else {\n                self.status = SolverStatus::MaxIterations;\n            }'),
+ ('termination_return_matches', D + 'info.rs', '        // return TRUE if we settled on a final status\n        self.status != SolverStatus::Unsolved', '        // return TRUE if we settled on a final status\n        !matches!(self.status, SolverStatus::Unsolved)'),
+ ('termination_poor_progress_collapsed', D + 'info.rs', '            if self.ktratio < T::one() {\n                if (self.res_dual > settings.tol_feas * (100.).as_T()\n                    && self.res_dual > self.prev_res_dual * (100.).as_T())\n                    || (self.res_primal > settings.tol_feas * (100.).as_T()\n                        && self.res_primal > self.prev_res_primal * (100.).as_T())\n                {\n                    self.status = SolverStatus::InsufficientProgress;\n                }\n            }', '            let hundred: T = (100.).as_T();\n            let dual_diverges = self.res_dual > settings.tol_feas * hundred && self.res_dual > self.prev_res_dual * hundred;\n            let primal_diverges = self.res_primal > settings.tol_feas * hundred && self.res_primal > self.prev_res_primal * hundred;\n            if self.ktratio < T::one() && (dual_diverges || primal_diverges) {\n                self.status = SolverStatus::InsufficientProgress;\n            }'),
+ ('solve_isdone_match_arms_split', R + 'core/solver.rs', '                        StrategyCheckpoint::NoUpdate | StrategyCheckpoint::Fail => {break}\n                        StrategyCheckpoint::Update(s) => {scaling = s; continue}', '                        StrategyCheckpoint::Update(s) => {scaling = s; continue}\n                        StrategyCheckpoint::Fail => {break}\n                        StrategyCheckpoint::NoUpdate => {break}'),
+ ('solve_mehrotra_m_if_swapped', R + 'core/solver.rs', '                let m = if iter > 1 {T::one()} else {α};', '                let m = if iter <= 1 {α} else {T::one()};'),
+ ('solve_numerical_error_zero_after', R + 'core/solver.rs', '                StrategyCheckpoint::Update(s) => {α = T::zero(); scaling = s; continue}\n                StrategyCheckpoint::Fail => {α = T::zero(); break}\n            }\n\n\n            // compute final step length', '                StrategyCheckpoint::Update(s) => {scaling = s; α = T::zero(); continue}\n                StrategyCheckpoint::Fail => {α = T::zero(); break}\n            }\n\n\n            // compute final step length'),
+ ('solve_final_row_ne_form', R + 'core/solver.rs', '        if α == T::zero() {\n            self.info.save_scalars(μ, α, σ, iter);', '        if !(α != T::zero()) {\n            self.info.save_scalars(μ, α, σ, iter);'),
+ ('solve_scaling_init_inverted', R + 'core/solver.rs', '            if self.cones.allows_primal_dual_scaling() {ScalingStrategy::PrimalDual}\n            else {ScalingStrategy::Dual}', '            if !self.cones.allows_primal_dual_scaling() {ScalingStrategy::Dual}\n            else {ScalingStrategy::PrimalDual}'),
+ ('solve_footer_before_solution_finalize', R + 'core/solver.rs', '        self.info.finalize(&mut timers);\n        self.solution.finalize(&self.info);\n\n        self.info.print_footer(&self.settings).unwrap();', '        self.info.finalize(&mut timers);\n        self.info.print_footer(&self.settings).unwrap();\n        self.solution.finalize(&self.info);\n'),
+ ('regularize_sign_branch_swapped', K + 'directldlkktsolver.rs', '                if sign == 1 {\n                    *shift += eps;\n                } else {\n                    *shift -= eps;\n                }', '                if sign != 1 {\n                    *shift -= eps;\n                } else {\n                    *shift += eps;\n                }'),
+ ('regularize_shift_from_signs', K + 'directldlkktsolver.rs', '            zip(&mut *diag_shifted, dsigns).for_each(|(shift, &sign)| {\n                if sign == 1 {\n                    *shift += eps;\n                } else {\n                    *shift -= eps;\n                }\n            });', '            for (shift, &sign) in zip(&mut *diag_shifted, dsigns) {\n                if sign == 1 {\n                    *shift += eps;\n                } else {\n                    *shift -= eps;\n                }\n            }'),
+ ('regularize_remember_first', K + 'directldlkktsolver.rs', '            // overwrite the diagonal of KKT and within the ldlsolver\n            _update_values(&mut self.ldlsolver, KKT, &map.diag_full, diag_shifted);\n\n            // remember the value we used.  Not needed,\n            // but possibly useful for debugging\n            self.diagonal_regularizer = eps;', '            self.diagonal_regularizer = eps;\n\n            // overwrite the diagonal of KKT and within the ldlsolver\n            _update_values(&mut self.ldlsolver, KKT, &map.diag_full, diag_shifted);'),
+ ('regularize_restore_guard_inverted', K + 'directldlkktsolver.rs', '        if settings.static_regularization_enable {\n            // put our internal copy', '        if !settings.static_regularization_enable {\n            return is_success;\n        }\n        {\n            // put our internal copy'),
+ ('presolve_contract_commuted', D + 'presolver.rs', '    let infbound = (T::one() - T::epsilon() * (10.).as_T()) * infbound;', '    let infbound = infbound * (T::one() - T::epsilon() * (10.).as_T());'),
+ ('presolve_outoption_ne', D + 'presolver.rs', '        if mreduced < b.len() {\n            Some(PresolverRowReductionIndex { keep_logical })\n        } else {\n            None\n        }', '        if mreduced == b.len() {\n            None\n        } else {\n            Some(PresolverRowReductionIndex { keep_logical })\n        }'),
+ ('presolve_skip_branch_first', D + 'presolver.rs', '        if matches!(cone, SupportedConeT::NonnegativeConeT(_)) {\n            for _ in 0..numel_cone {\n                if b[idx] > infbound {\n                    keep_logical[idx] = false;\n                    mreduced -= 1;\n                }\n                idx += 1;\n            }\n        } else {\n            // skip this cone\n            idx += numel_cone;\n        }', '        if !matches!(cone, SupportedConeT::NonnegativeConeT(_)) {\n            // skip this cone\n            idx += numel_cone;\n            continue;\n        }\n        for _ in 0..numel_cone {\n            if b[idx] > infbound {\n                keep_logical[idx] = false;\n                mreduced -= 1;\n            }\n            idx += 1;\n        }'),
+ ('reverse_presolve_not_keep_first', D + 'presolver.rs', '            if keep {\n                solution.s[idx] = variables.s[ctr];\n                solution.z[idx] = variables.z[ctr];\n                ctr += 1;\n            } else {\n                solution.s[idx] = self.infbound.as_T();\n                solution.z[idx] = T::zero();\n            }', '            if !keep {\n                solution.z[idx] = T::zero();\n                solution.s[idx] = self.infbound.as_T();\n            } else {\n                solution.z[idx] = variables.z[ctr];\n                solution.s[idx] = variables.s[ctr];\n                ctr += 1;\n            }'),
+ ('reduce_cones_nkeep_ne_zero', D + 'presolver.rs', '                if nkeep > 0 {\n                    cones_new.push(SupportedConeT::NonnegativeConeT(nkeep));\n                }', '                if nkeep != 0 {\n                    cones_new.push(SupportedConeT::NonnegativeConeT(nkeep));\n                }'),
+ ('presolver_count_reduced_locals', D + 'presolver.rs', '        self.mfull - self.mreduced\n', '        let (full, red) = (self.mfull, self.mreduced);\n        full - red\n'),
+ ('update_matrix_zip_one_product', D + 'data_updating.rs', '            if let Some(c) = cscale {\n                M.nzval[idx] = lscale[row] * rscale[col] * c * value;\n            } else {\n                M.nzval[idx] = lscale[row] * rscale[col] * value;\n            }', '            let c = cscale.unwrap_or(T::one());\n            M.nzval[idx] = value * c * rscale[col] * lscale[row];'),
+ ('update_matrix_slice_scale_first', D + 'data_updating.rs', '        // reapply original equilibration\n        M.lrscale(lscale, rscale);\n        if let Some(c) = cscale {\n            M.scale(c);\n        }', '        // reapply original equilibration\n        if let Some(c) = cscale {\n            M.scale(c);\n        }\n        M.lrscale(lscale, rscale);'),
+ ('update_vector_len_checks_swapped', D + 'data_updating.rs', '        if data.len() != v.len() {\n            return Err(SparseFormatError::IncompatibleDimension);\n        }\n\n        v.copy_from_slice(data);\n\n        //reapply original equilibration', '        if v.len() != data.len() {\n            return Err(SparseFormatError::IncompatibleDimension);\n        }\n\n        v.copy_from_slice(data);\n\n        //reapply original equilibration'),
+ ('json_save_A_before_P', D + 'json.rs', '        json_data.P.lrscale(dinv, dinv);\n        json_data.q.hadamard(dinv);\n        json_data.P.scale(c.recip());\n        json_data.q.scale(c.recip());\n\n        json_data.A.lrscale(einv, dinv);\n        json_data.b.hadamard(einv);', '        json_data.b.hadamard(einv);\n        json_data.A.lrscale(einv, dinv);\n\n        let cinv = c.recip();\n        json_data.q.scale(cinv);\n        json_data.q.hadamard(dinv);\n        json_data.P.scale(cinv);\n        json_data.P.lrscale(dinv, dinv);'),
+ ('json_save_to_vec', D + 'json.rs', '        let json = serde_json::to_string(&json_data)?;\n        file.write_all(json.as_bytes())?;', '        let json = serde_json::to_vec(&json_data)?;\n        file.write_all(&json)?;'),
+ ('json_load_validate_settings_first', D + 'json.rs', '        check_json_problem_data(&P, &q, &A, &b, &cones)?;\n        settings\n            .validate()\n            .map_err(|e| io::Error::new(io::ErrorKind::InvalidData, e))?;', '        settings\n            .validate()\n            .map_err(|e| io::Error::new(io::ErrorKind::InvalidData, e))?;\n        check_json_problem_data(&P, &q, &A, &b, &cones)?;'),
+ ('json_load_settings_match', D + 'json.rs', '        let settings = settings.unwrap_or(json_data.settings);', '        let settings = match settings {\n            Some(s) => s,\n            None => json_data.settings,\n        };'),
+ ('json_validator_dims_reordered', D + 'json.rs', '    if A.ncols() != q.len() {\n        return Err(invalid("A and q incompatible dimensions.".to_string()));\n    }\n    if A.nrows() != b.len() {\n        return Err(invalid("A and b incompatible dimensions.".to_string()));\n    }', '    if b.len() != A.nrows() {\n        return Err(invalid("A and b incompatible dimensions.".to_string()));\n    }\n    if q.len() != A.ncols() {\n        return Err(invalid("A and q incompatible dimensions.".to_string()));\n    }'),
+ ('nn_step_length_gt_form', R + 'core/cones/nonnegativecone.rs', '            if dz[i] < T::zero() {\n                αz = T::min(αz, -z[i] / dz[i]);\n            }\n            if ds[i] < T::zero() {\n                αs = T::min(αs, -s[i] / ds[i]);\n            }', '            if T::zero() > ds[i] {\n                αs = T::min(-s[i] / ds[i], αs);\n            }\n            if T::zero() > dz[i] {\n                αz = T::min(-z[i] / dz[i], αz);\n            }'),
+ ('soc_step_scalar_cap_swapped_conj', R + 'core/cones/socone.rs', '    if x[0] >= T::zero() && y[0] < T::zero() {\n        αmax = T::min(αmax, -x[0] / y[0]);\n    }', '    if y[0] < T::zero() && x[0] >= T::zero() {\n        αmax = T::min(-x[0] / y[0], αmax);\n    }'),
+ ('soc_step_c_zero_inverted', R + 'core/cones/socone.rs', '        return if a >= T::zero() { αmax } else { T::zero() };', '        return if a < T::zero() { T::zero() } else { αmax };'),
+ ('soc_step_a_zero_inverted', R + 'core/cones/socone.rs', '        return if b < T::zero() {\n            T::min(αmax, -c / b)\n        } else {\n            αmax\n        };', '        return if b >= T::zero() {\n            αmax\n        } else {\n            T::min(-c / b, αmax)\n        };'),
+ ('soc_step_discriminant_commuted', R + 'core/cones/socone.rs', '    let d = b * b - four * a * c;', '    let d = b * b - a * c * four;'),
+ ('soc_step_root_branch_inverted', R + 'core/cones/socone.rs', '        if b >= T::zero() {\n            -b - T::sqrt(d)\n        } else {\n            -b + T::sqrt(d)\n        }', '        if b < T::zero() {\n            T::sqrt(d) - b\n        } else {\n            -b - T::sqrt(d)\n        }'),
+ ('soc_step_final_min_regrouped', R + 'core/cones/socone.rs', '    T::min(αmax, T::min(r1, r2))\n}', '    T::min(T::min(r2, αmax), r1)\n}'),
+ ('soc_step_negative_roots_form', R + 'core/cones/socone.rs', '    let r1 = if r1 < T::zero() { T::infinity() } else { r1 };\n    let r2 = if r2 < T::zero() { T::infinity() } else { r2 };', '    let r2 = if r2 >= T::zero() { r2 } else { T::infinity() };\n    let r1 = if r1 >= T::zero() { r1 } else { T::infinity() };'),
 ]
 
 
